@@ -193,3 +193,66 @@ def run_delay(prog, rule="R-SCRATCH"):
     res.counts["counter_loops"] = nloops
     res.floor("loops updating a dependency counter", nloops, 10)
     return res
+
+
+def run_pair(prog, rule="R-MARKPAIR"):
+    """every function that sets scratch marks (a non-zero store into lpinfo::iwork[..]) passes, on every path from the store to a return,
+    a loop that clears marks (a loop whose body stores 0 into iwork[..]) or a direct clearing store.  The marks are shared by several
+    kernels (tableau row expansion, ratio tests, partial pricing): one left set on an early exit makes a later, unrelated computation skip
+    that entry."""
+    from ..core import Flow, const_of
+    from .certdep import natural_loops
+    res = RuleResult(rule, "on every path from a store that sets a scratch mark to a return the function passes a loop (or store) that clears marks")
+    nset = 0
+    for f in sorted(prog.funcs.values(), key=lambda x: x.key):
+        if f.live is None or "_dbl." in f.unit or "_mpf." in f.unit or not f.unit.startswith("qsopt_ex/"):
+            continue
+        sets, clears = set(), set()
+        for b, i, e in f.elements():
+            if e[0] == "A" and e[1][1] == "=":
+                l = strip(e[1][2])
+                if isinstance(l, list) and l and l[0] == "i" and any(isinstance(nd, list) and nd and nd[0] == "m" and nd[2].endswith("lpinfo::iwork") for nd in walk(l[1])):
+                    c = const_of(e[1][3])
+                    if c == 0:
+                        clears.add((b["id"], i))
+                    else:
+                        sets.add((b["id"], i))
+        if not sets:
+            continue
+        nset += len(sets)
+        loops, dom, succ = natural_loops(prog, f)
+        clear_blocks = {bid for (bid, _) in clears}
+        clear_headers = {h for h, body in loops.items() if body & clear_blocks}
+        bad = {}
+
+        def xfer(b, i, e, st):
+            if (b["id"], i) in sets:
+                return [("dirty", e[2])]
+            if (b["id"], i) in clears:
+                return [("clean", "")]
+            if e[0] == "R" and st[0] == "dirty":
+                bad.setdefault(st[1], (e[2], b["id"], st))
+            return None
+
+        def refine(cond, truth, st):
+            return None
+        # reaching the header of a clearing loop cleans (the loop runs over the same list that was marked)
+        hdr_cond = {id(f.blocks[h].get("c")): h for h in clear_headers if f.blocks[h].get("c") is not None}
+
+        def refine2(cond, truth, st):
+            if id(cond) in hdr_cond and st[0] == "dirty":
+                return [("clean", "")]
+            return None
+        flw = Flow(prog, f, [("clean", "")], xfer, refine2).run()
+        res.obligations += len(sets)
+        res.nontrivial += len(sets)
+        for setloc, (retloc, bid, st) in sorted(bad.items()):
+            res.violations.append(Violation(rule, "%s|marks set at %s not cleared on a path to the return" % (f.name.replace("mpq_", ""), short_loc(setloc).split(":")[-1]),
+                                            f.name, short_loc(retloc),
+                                            "a path from the store that sets lp->iwork[..] (%s) reaches this return without passing a loop or store that clears marks: "
+                                            "the next user of the shared scratch array skips the marked entries" % short_loc(setloc), path=flw.witness(bid, st)))
+        if f.key and not bad:
+            res.sample({"function": f.name, "setting_stores": len(sets), "clearing_loops": len(clear_headers), "verdict": "cleared on every path"}, limit=8)
+    res.counts["mark_setting_stores"] = nset
+    res.floor("stores that set a scratch mark", nset, 5)
+    return res
